@@ -182,7 +182,32 @@ def extra(tier, rng, workdir):
                              "expected": tail_t[d], "observed": tail_r[d], "trace": rr,
                              "what": "a revert that ran while a save's storage write was in flight left the store different from "
                                      "'save, then revert' (op %s: %s instead of %s)" % (c["ops"][k + d], tail_r[d][:8], tail_t[d][:8])})
-    cov = {"save_race_scenarios": n, "save_race_pause_point_reached": reached, "histories": nhist, "crash_images": images, "repository_histories_K1000": len(rcases), "repository_crash_images": rimages, "distinct_images": len(distinct), "single_fault_runs": len(fcases),
+    # a restart during which one storage read fails: either the load reports it (the process is started again), or
+    # what it loaded is the whole stored chain - never a silently shorter chain under which later writes land
+    lf_cases, lf_twins = [], []
+    for tip, j in ((2500, 1), (2500, 2), (2500, 3), (2500, 4), (1500, 1), (1500, 2), (999, 1), (3000, 2))[:5 if tier == "quick" else 8]:
+        pre = [["addn", 1, tip], ["save"]]
+        post = [["lastheight"], ["lasthash"], ["addn", 7001, 230], ["save"], ["files"], ["load"], ["lastheight"], ["lasthash"],
+                ["hash", min(tip, 2000)], ["hash", min(tip, 1999)], ["addn", 8001, 800], ["files"], ["load"], ["lastheight"]]
+        lf_cases.append({"cfg": {"rm_err": 1}, "ops": pre + [["load_fault", j]] + post})
+        lf_twins.append({"cfg": {"rm_err": 1}, "ops": pre + [["load"]] + post})
+    lf_res, _ = vlib.run_harness("blockrepo", lf_cases + lf_twins, workdir, tag="loadfault")
+    lf_fired = 0
+    for c, rr, tr in zip(lf_cases, lf_res[:len(lf_cases)], lf_res[len(lf_cases):]):
+        k = 3
+        lf_fired += rr[2][1] if len(rr[2]) > 1 else 0
+        if rr[2][0] != 0:
+            failures.append({"suite": "loadfault", "checker": "load_fault", "step": 2, "cfg": c["cfg"], "ops": c["ops"], "expected": [0],
+                             "observed": rr[2], "trace": rr, "what": "after a restart with one failing read the store cannot be loaded any more"})
+        elif rr[k:] != tr[k:]:
+            d = next(i for i, (a, b) in enumerate(zip(rr[k:], tr[k:])) if a != b)
+            failures.append({"suite": "loadfault", "checker": "load_fault", "step": k + d, "cfg": c["cfg"], "ops": c["ops"],
+                             "expected": tr[k + d], "observed": rr[k + d], "trace": rr,
+                             "what": "a restart during which one storage read failed (load_fault %d: load %s) left the node with another chain "
+                                     "than a restart without the fault (op %s: %s instead of %s)" % (
+                                         c["ops"][2][1], "succeeded" if rr[2][2:] == [1] else "reported the error", c["ops"][k + d],
+                                         rr[k + d][:8], tr[k + d][:8])})
+    cov = {"load_fault_scenarios": len(lf_cases), "load_faults_fired": lf_fired, "save_race_scenarios": n, "save_race_pause_point_reached": reached, "histories": nhist, "crash_images": images, "repository_histories_K1000": len(rcases), "repository_crash_images": rimages, "distinct_images": len(distinct), "single_fault_runs": len(fcases),
            "faults_that_fired": hit,
            "samples_crash": [{"ops": cases[0]["ops"][:12], "log": ext[0]["log"][:8], "images": ext[0]["images"][:8]}]}
     return {"failures": failures, "evaluations": images + rimages + len(fcases), "coverage": cov}
@@ -194,6 +219,10 @@ def suites(tier, rng, replay):
 
 
 def keyfn(rec):
+    if rec.get("suite") == "loadfault":
+        ops = rec.get("ops", [])
+        st = rec.get("step", 0)
+        return "loadfault:%s" % (ops[st][0] if 0 <= st < len(ops) else "?")
     if rec.get("suite") == "saverace":
         ops = rec.get("ops", [])
         st = rec.get("step", 0)
